@@ -46,3 +46,19 @@ def tier2(tier, rng):
             yield {"h": h, "w": w, "grid": g}
     for g in L.sample(rng, L.all_grids(2, 2, _values(2, 2)), 40 if tier == "thorough" else 4):
         yield {"h": 2, "w": 2, "grid": g}
+
+
+def big(tier, rng):
+    """long single-row / single-column boards with two-digit island sizes: island, wall, island"""
+    th = tier == "thorough"
+    for n in (L.LONG if th else L.sample(rng, L.LONG, 4) + [25]):
+        a = rng.randint(10, min(12, n - 2))
+        b = rng.randint(1, max(1, n - a - 1))
+        c = n - a - b
+        row = [0] * n
+        row[rng.randrange(0, a)] = a
+        if c > 0:
+            row[rng.randrange(a + b, n)] = c
+        white = [1] * a + [0] * b + [1] * c
+        yield {"h": 1, "w": n, "grid": [row], "planted": [white]}
+        yield {"h": n, "w": 1, "grid": [[v] for v in row], "planted": [white]}
